@@ -27,7 +27,7 @@ def FLOORS(tier):
     q = tier == "quick"
     f = {"convert_solution-checks": 3000 if q else 10 ** 5, "export:Q": 60, "export:hJ": 60,
          "export:matrix_to_qubo": 60, "export:qubo_to_matrix": 100, "real-coefficients": 100,
-         "raw-repeated-labels": 100, "all-ones-solution": 30}
+         "raw-repeated-labels": 50, "all-ones-solution": 30}
     for fn, (kind, d2) in FREE.items():
         for t in SRC[kind]:
             if d2 and t in ("PUBO", "PCBO", "PUSO", "PCSO", "PUBOMatrix", "PUSOMatrix"):
